@@ -201,6 +201,12 @@ def cases(draw):
         offs = [(i - below + 0.5) * 2 * step for i in range(nr)]
         if shape == 'high-edge':
             offs = [-o for o in reversed(offs)]
+        # keep every planted value inside [0.02, 0.95] and every rate positive
+        for _ in range(60):
+            vals = [A + B_raw * (o * dd ** nu) + C * (o * dd ** nu) ** 2 for o in offs for dd in dist]
+            if min(vals) >= 0.02 and max(vals) <= 0.95 and p_th + min(offs) > 0.1 * p_th:
+                break
+            offs = [0.85 * o for o in offs]
         rates = [round(p_th + o, 6) for o in offs]
     N = draw(st.sampled_from([4000, 20000]))
     layouts = [[draw(st.integers(0, 10**6)), draw(st.integers(1, 12))]]
@@ -212,6 +218,12 @@ def cases(draw):
     if nr >= 9 and draw(st.booleans()):
         room = (nr - 7) // 2
         trims = [[draw(st.integers(0, room)), draw(st.integers(0, room))] for _ in dist]
+        # never trim on the side where only one or two rates lie beyond p_th:
+        # the threshold must stay inside the data of every distance
+        if shape == 'low-edge':
+            trims = [[0, t[1]] for t in trims]
+        elif shape == 'high-edge':
+            trims = [[t[0], 0] for t in trims]
     return {'params': [p_th, nu, A, B_raw, C], 'distances': dist, 'rates': rates,
             'trims': trims, 'N': N, 'layouts': layouts, 'shape': shape}
 
